@@ -448,6 +448,101 @@ theorem foreign_record_breaks_agreement (s : State) (b : Bal) (D : Int → Prop)
   intro e
   exact hne (Option.some.inj e)
 
+/-! #### the loader: where "SHM = .PASSWDS" comes from, under either site configuration -/
+
+/-- what the source says: the block of `cache.userecRawAddToUHash` that fills a slot from its record assigns
+`Userid` and `Money` unconditionally; `ptttype.USE_COOLDOWN` guards nothing the balance depends on; and the
+"skip invalid ids" counter cannot reach its limit on a table of MAX_USERS slots. -/
+theorem loader_copies_money_unconditionally :
+    "Money" ∈ Gen.Money.loaderCopies ∧ "Userid" ∈ Gen.Money.loaderCopies ∧
+    Gen.Money.maxUsers ≤ Gen.Money.preAllocatedUsers := by decide
+
+/-- the loader treats Userid / Money the same under `USE_COOLDOWN = true` and `= false`, on every file and every
+segment. -/
+theorem load_independent_of_cooldown (onfly : Bool) (ids : List (List Nat)) (s : State) :
+    loadUHash onfly true ids s = loadUHash onfly false ids s := by
+  unfold loadUHash
+  have : loadRec onfly true = loadRec onfly false := by
+    funext f st i; exact loadRec_cooldown onfly f st i
+  rw [this]
+
+/-- a fresh start (`Shm.Reset()`, `LoadUHash`) on a complete `.PASSWDS`, whatever SHM held before and under either
+configuration value: it succeeds, the file is untouched, and every valid slot's SHM money is the Money of its
+record — the state represents the table of the disk balances. -/
+theorem fresh_load_establishes_agreement (cd : Bool) (s : State) (h : WF s) :
+    (freshLoad cd s).2 = .ok .none ∧ (freshLoad cd s).1.2.file = s.file ∧
+    ∃ b : Bal, (∀ u, Valid u → diskAt s u = some (b u)) ∧ Agree (freshLoad cd s).1.2 b (fun _ => True) := by
+  obtain ⟨_, f, hf, hlen⟩ := h
+  have hc := loadUHash_complete false cd (List.replicate MAX (List.replicate IDSZ 0))
+    { s with shm := List.replicate MAX 0 } f (by simp) (by simp) hf hlen
+  obtain ⟨h1, h2, h3, _, h5⟩ := hc
+  refine ⟨h1, by rw [hf]; exact h2, fun u => fileMoney f (u - 1).toNat, ?_, ?_⟩
+  · intro u hu; exact (diskAt_fileMoney s f u hf hlen hu).1
+  · refine ⟨⟨h3, f, h2, hlen⟩, ?_, ?_⟩
+    · intro u hu
+      refine ⟨?_, (diskAt_fileMoney s f u hf hlen hu).2⟩
+      have := h5 u hu
+      rw [if_pos (by simp [reloadCond])] at this
+      exact this
+    · intro u hu _
+      exact (diskAt_fileMoney (freshLoad cd s).1.2 f u h2 hlen hu).1
+
+/-- an on-the-fly reload on a complete `.PASSWDS`, for ANY contents of the SHM user-id array: a state in which SHM
+and `.PASSWDS` agree stays so with the same balances; and in any well-formed state every slot whose owner changed
+(its record's user id differs from the one in SHM) ends with SHM money = the Money of its record. -/
+theorem reload_keeps_agreement (cd : Bool) (ids : List (List Nat)) (s : State) (b : Bal)
+    (h : Agree s b (fun _ => True)) (hi : ids.length = MAX) :
+    (loadUHash true cd ids s).2 = .ok .none ∧ Agree (loadUHash true cd ids s).1.2 b (fun _ => True) := by
+  obtain ⟨⟨hs, f, hf, hlen⟩, hshm, hdisk⟩ := h
+  obtain ⟨h1, h2, h3, _, h5⟩ := loadUHash_complete true cd ids s f hs hi hf hlen
+  refine ⟨h1, ⟨h3, f, h2, hlen⟩, ?_, ?_⟩
+  · intro u hu
+    refine ⟨?_, (hshm u hu).2⟩
+    rw [h5 u hu]
+    split
+    · have hd := hdisk u hu trivial
+      rw [(diskAt_fileMoney s f u hf hlen hu).1] at hd
+      exact hd
+    · exact (hshm u hu).1
+  · intro u hu _
+    have hd := hdisk u hu trivial
+    rw [(diskAt_fileMoney s f u hf hlen hu).1] at hd
+    rw [(diskAt_fileMoney (loadUHash true cd ids s).1.2 f u h2 hlen hu).1]
+    exact hd
+
+theorem reload_refills_changed_owner (cd : Bool) (ids : List (List Nat)) (s : State) (f : List Nat) (u : Int)
+    (h : WF s) (hf : s.file = some f) (hi : ids.length = MAX) (hu : Valid u)
+    (hch : cstr (fileId f (u - 1).toNat) ≠ cstr (ids.getD (u - 1).toNat [])) :
+    shmAt (loadUHash true cd ids s).1.2 u = diskAt (loadUHash true cd ids s).1.2 u := by
+  obtain ⟨hs, f0, hf0, hlen⟩ := h
+  have e : f0 = f := by rw [hf] at hf0; exact (Option.some.inj hf0).symm
+  subst e
+  obtain ⟨_, h2, _, _, h5⟩ := loadUHash_complete true cd ids s f0 hs hi hf hlen
+  have hc : reloadCond true f0 ids (u - 1).toNat = true := by
+    unfold reloadCond
+    rw [Bool.or_eq_true]; right
+    exact bne_iff_ne.2 hch
+  rw [h5 u hu, if_pos hc, (diskAt_fileMoney _ f0 u h2 hlen hu).1]
+
+/-- start-up followed by ANY history inside int32 (credits, debits, sets, whole-record writes, registrations):
+SHM, the record and plain arithmetic STARTING FROM THE DISK BALANCES agree on every valid slot. -/
+theorem history_after_fresh_start (cd : Bool) (s : State) (h : WF s) :
+    ∃ b : Bal, (∀ u, Valid u → diskAt s u = some (b u)) ∧
+      ∀ os, NoOverflowRun b os → ∀ u, Valid u →
+        shmAt (run (freshLoad cd s).1.2 os) u = some (specRun b os u) ∧
+        diskAt (run (freshLoad cd s).1.2 os) u = some (specRun b os u) := by
+  obtain ⟨_, _, b, hb, hag⟩ := fresh_load_establishes_agreement cd s h
+  exact ⟨b, hb, fun os hno u hu => (money_history _ b os hag hno).2 u hu⟩
+
+/-- witness for the rule the loader has to keep: if a slot's SHM money does not come from its record (SHM holds `b u`
+while the record holds something else — `D` need not contain `u`), the next credit or debit writes
+`deNew (b u) c` over the record: the balance that was on disk is gone. -/
+theorem stale_shm_overwrites_disk_balance (s : State) (b : Bal) (D : Int → Prop) (u c : Int) (h : Agree s b D)
+    (hu : Valid u) (hno : NoOverflow b (.de u c)) :
+    diskAt (step s (.de u c)).1 u = some (deNew (b u) c) := by
+  have := (money_refines s b D (.de u c) h hno).1.2.2 u hu (Or.inr rfl)
+  rw [this]; simp [specStep, hu, upd]
+
 /-! #### balances never go negative -/
 
 /-- if every balance is ≥ 0 at the start and every `set` and every registration stores a value ≥ 0, then after any history inside
